@@ -59,6 +59,7 @@ pub fn gen_min_case(rng: &mut Rng, tier: &str, prop: &str, degenerate: bool) -> 
             "m" => m,
             "threads" => threads,
             "preset" => *rng.pick(&["s2m", "m2s"]),
+            "stale" => if rng.chance(1, 8) { rng.range(1, 1 << 40) } else { 0 },
         },
         extra: vec![],
     }
@@ -194,6 +195,9 @@ impl Engine for C10 {
         let cfg = MinCfg::from_params(&case.params);
         let in_path = write_input(&dir, "in", &case.records, &case.container);
         let out_path = dir.join("out.min");
+        if stale_output(&out_path, case.params.get("stale").and_then(|v| v.as_u64()).unwrap_or(0)) {
+            out.probe("stale_output_file", 1);
+        }
         let r = run_min(&in_path, &out_path, &cfg, &case.sched, &case.io, None, 4, steps_for(case));
         out.absorb(&r, true);
         match &r.value {
@@ -236,7 +240,7 @@ impl Engine for C10 {
     }
 
     fn required_probes(&self) -> Vec<&'static str> {
-        vec!["w=0", "preset_s2m", "preset_m2s", "minimiser_shared_by>=3_entries", "more_workers_than_records"]
+        vec!["stale_output_file", "w=0", "preset_s2m", "preset_m2s", "minimiser_shared_by>=3_entries", "more_workers_than_records"]
     }
 
     fn real_components(&self) -> Vec<&'static str> {
